@@ -4,6 +4,7 @@ import (
 	"context"
 	"errors"
 	"io"
+	"strings"
 	"sync"
 
 	"google.golang.org/grpc"
@@ -223,6 +224,9 @@ type serverStream struct {
 }
 
 func (s *serverStream) SetHeader(md metadata.MD) error {
+	if err := validateMD(md); err != nil {
+		return err
+	}
 	s.headerM.Lock()
 	defer s.headerM.Unlock()
 
@@ -237,6 +241,9 @@ func (s *serverStream) SetHeader(md metadata.MD) error {
 }
 
 func (s *serverStream) SendHeader(md metadata.MD) error {
+	if err := validateMD(md); err != nil {
+		return err
+	}
 	s.headerM.Lock()
 	defer s.headerM.Unlock()
 
@@ -247,6 +254,37 @@ func (s *serverStream) SendHeader(md metadata.MD) error {
 	}
 	s.header = metadata.Join(s.header, md)
 	close(s.headerC)
+	return nil
+}
+
+// validateMD refuses metadata no connection carries, with the error a gRPC server stream gives for it:
+// keys are made of [0-9a-z-_.] (metadata.Pairs and metadata.New lower-case them, an MD literal does not) and
+// values are printable ASCII unless the key ends in "-bin".
+func validateMD(md metadata.MD) error {
+	for k, vals := range md {
+		if k == "" {
+			return status.Error(codes.Internal, "there is an empty key in the header")
+		}
+		if k[0] == ':' {
+			continue // pseudo-header
+		}
+		for i := 0; i < len(k); i++ {
+			r := k[i]
+			if !(r >= 'a' && r <= 'z') && !(r >= '0' && r <= '9') && r != '.' && r != '-' && r != '_' {
+				return status.Errorf(codes.Internal, "header key %q contains illegal characters not in [0-9a-z-_.]", k)
+			}
+		}
+		if strings.HasSuffix(k, "-bin") {
+			continue
+		}
+		for _, val := range vals {
+			for i := 0; i < len(val); i++ {
+				if val[i] < 0x20 || val[i] > 0x7E {
+					return status.Errorf(codes.Internal, "header key %q contains value with non-printable ASCII characters", k)
+				}
+			}
+		}
+	}
 	return nil
 }
 
